@@ -34,11 +34,10 @@ def wire_tests(fn_hir):
     return out
 
 
-def run(chk, facts, tier, only=None):
+def rule_tables(chk, facts):
     c = facts.crate("candid")
     mx = Matrix(facts)
-
-    def r1():
+    if True:
         t = Table(facts, "subtype_")
         chk.analysed(t.fn["key"])
         ctors = [x for x in type_ctors(facts) if x not in ("Var", "Knot", "Unknown", "Class", "Future")]
@@ -147,5 +146,9 @@ def run(chk, facts, tier, only=None):
         chk.expect(okargs, "reference:check_subtype-orientation",
                    "check_subtype must ask subtype_with_config(.., wire_type, expect_type) in that order")
 
+
+
+def run(chk, facts, tier, only=None):
     if not only or only == "C04.R1":
-        chk.run_rule("C04.R1", "checker rule table and decoder acceptance table agree in both directions", r1)
+        chk.run_rule("C04.R1", "checker rule table and decoder acceptance table agree in both directions",
+                     lambda: rule_tables(chk, facts))
